@@ -886,6 +886,34 @@ class SymBytes:
             return False
         return bool(self[len(self.e) - len(p):] == p)
 
+    def find(self, sub, start=0, end=None):
+        n = len(self.e)
+        start = _cidx(start) or 0
+        end = n if end is None else _cidx(end)
+        if start < 0:
+            start = max(0, n + start)
+        if end < 0:
+            end = max(0, n + end)
+        end = min(end, n)
+        if isinstance(sub, int):
+            sub = bytes([sub])
+        m = len(sub)
+        for i in range(start, end - m + 1):
+            if bool(self[i:i + m] == sub):
+                return i
+        return -1
+
+    def index(self, sub, start=0, end=None):
+        i = self.find(sub, start, end)
+        if i < 0:
+            raise ValueError("subsection not found")
+        return i
+
+    def __getattr__(self, name):
+        if name.startswith("__"):
+            raise AttributeError(name)
+        raise Unsupported(f"bytes.{name} on symbolic bytes")
+
     def term(self):
         """the whole content as one bit-vector (8*len bits), MSB first"""
         parts = [byte_term(e) for e in self.e]
@@ -1047,6 +1075,11 @@ class SymStr:
 
     def __format__(self, spec):
         return "<symstr>"
+
+    def __getattr__(self, name):
+        if name.startswith("__"):
+            raise AttributeError(name)
+        raise Unsupported(f"str.{name} on symbolic str")
 
     def to_int(self, base=10):
         """int('…') of a digit string: the decimal polynomial (forks on 'all digits')"""
